@@ -1,7 +1,7 @@
 #!/venv/bin/python
 """Build the prompts handed to seeding sub-agents for one round: property text + scratch worktree path +
 one-line triggers of earlier seeds for the same property (so a new seed is a different mechanism).
-Nothing about the checks themselves goes into a prompt.  usage: mkseedprompts.py <round-prefix> <outdir>"""
+Nothing about the checks themselves goes into a prompt.  usage: mkseedprompts.py <round-prefix> <outdir> [a|b]   (a/b: which list of hunting grounds the agents are steered towards)"""
 import glob
 import json
 import os
@@ -9,8 +9,12 @@ import sys
 
 HERE = os.path.dirname(os.path.dirname(os.path.abspath(__file__)))
 prefix, outdir = sys.argv[1], sys.argv[2]
+variant = sys.argv[3] if len(sys.argv) > 3 else "a"
 os.makedirs(outdir, exist_ok=True)
 props = [json.loads(l) for l in open(os.path.join(HERE, "properties.jsonl")) if l.strip()]
+
+GROUNDS = {"a": 'Choose a mechanism of a kind NOT in that list. Good hunting grounds, in order of preference:\n  - a COMBINATION of two features that are each fine alone (for example proxying together with uploads, per-location settings together with a middleware, IPv6 together with an address list, the alternative TLS backend together with a timeout, a second call on an object that was configured by the first);\n  - a less common public entry point for the same behaviour (another method or function, a sync wrapper, a CLI command, a config-file key, a default that applies only when a value is omitted) whose code differs slightly from the main one;\n  - helper modules outside the listed anchor files that the anchored code calls into (utils, config parsing, security helpers), where a small contract change is only wrong for one caller;\n  - exact numeric boundaries (equality, zero, negative, one more than a limit, values that only differ after rounding or type conversion), and values whose textual form varies (case, leading zeros, whitespace, trailing dots or slashes, bracketed IPv6);\n  - behaviour that depends on the environment (current directory, relative paths, symlinks, permissions, pre-existing files or database rows from an older run).\n',
+           "b": 'Choose a mechanism of a kind NOT in that list. Good hunting grounds, in order of preference:\n  - two connections, requests or calls that are in flight AT THE SAME TIME and share an object (a limiter, a store, a handler, a cache, a client): state written by one is seen half-updated by the other;\n  - code whose purpose is not the behaviour itself - logging, metrics, debug output, statistics, pretty-printing, progress callbacks - placed so that a failure or side effect there changes what the peer sees;\n  - clean-up that is forgotten or done too early: timers, tasks, temporary files, file descriptors, database handles, flags; the damage shows only on a LATER event (a late read, a timer that still fires, the next request on the same object);\n  - truthiness and type coercion of legitimate values: 0, empty string, empty list, None versus missing, bool versus int, str versus bytes, Path versus str;\n  - quirks of the standard library the code leans on (urllib.parse, ipaddress, ssl, sqlite3, tomllib, pathlib, os.path) for inputs where two of its functions disagree;\n  - time: wall clock versus monotonic clock, naive versus aware datetimes, very long idle periods, events that happen at exactly the same instant.'}
 
 TEMPLATE = """You are helping evaluate a verification harness by producing a realistic, subtle regression ("seeded bug") in an open-source Python project, nauyaca (an asyncio Gemini/Titan protocol server and client with TLS, TOFU certificate pinning, middleware and a reverse proxy).
 
@@ -34,13 +38,7 @@ How to run things: the interpreter is /venv/bin/python (3.12). IMPORTANT: the in
 
 DIVERSITY REQUIREMENT: {n_prev} earlier, different regressions for this same property already exist. Do NOT reproduce any of them or a close variant. They are triggered by:
 {prev}
-Choose a mechanism of a kind NOT in that list. Good hunting grounds, in order of preference:
-  - a COMBINATION of two features that are each fine alone (for example proxying together with uploads, per-location settings together with a middleware, IPv6 together with an address list, the alternative TLS backend together with a timeout, a second call on an object that was configured by the first);
-  - a less common public entry point for the same behaviour (another method or function, a sync wrapper, a CLI command, a config-file key, a default that applies only when a value is omitted) whose code differs slightly from the main one;
-  - helper modules outside the listed anchor files that the anchored code calls into (utils, config parsing, security helpers), where a small contract change is only wrong for one caller;
-  - exact numeric boundaries (equality, zero, negative, one more than a limit, values that only differ after rounding or type conversion), and values whose textual form varies (case, leading zeros, whitespace, trailing dots or slashes, bracketed IPv6);
-  - behaviour that depends on the environment (current directory, relative paths, symlinks, permissions, pre-existing files or database rows from an older run).
-
+{grounds}
 DELIVERABLES, all written into {wt}/_out/ :
   1. patch.diff  - output of `git -C {wt} diff -- src` (source change only; must apply cleanly with `git apply` to the same commit).
   2. demo.py     - a small standalone program (or pytest file demo_test.py) that exercises the real code and FAILS (non-zero exit / failing assertion) with your change applied and PASSES without it. It must locate the code through PYTHONPATH (do not hard-code /repo), need no network beyond loopback, and finish in under 60 s. Run it both ways yourself (undo with `git -C {wt} apply -R _out/patch.diff` and re-apply with `git -C {wt} apply _out/patch.diff`; do NOT use `git stash`, the stash is shared with other worktrees) and report both outcomes.
@@ -58,6 +56,6 @@ for p in props:
         if need:
             prev.append(need)
     wt = f"/tmp/{prefix}-{pid}"
-    body = TEMPLATE.format(wt=wt, proptext=text, n_prev=len(prev), prev="\n".join(f'  ({i + 1}) "{n}"' for i, n in enumerate(prev)))
+    body = TEMPLATE.format(grounds=GROUNDS[variant], wt=wt, proptext=text, n_prev=len(prev), prev="\n".join(f'  ({i + 1}) "{n}"' for i, n in enumerate(prev)))
     open(os.path.join(outdir, f"{prefix}-prompt-{pid}.txt"), "w").write(body)
 print("wrote", len(props), "prompts to", outdir)
